@@ -590,7 +590,114 @@ def gen_discus(o):
     has_compare(fn, m["_parse_format"], "words[1]", "pdffit")
 
 
-GENERATORS = [gen_xyz, gen_rawxyz, gen_pdffit, gen_discus]
+PDB_ATOM_NAMES = ["serial", "name", "altLoc", "resName", "chainID", "resSeq", "iCode", "x", "y", "z", "occupancy", "tempFactor",
+                  "segID", "element", "charge"]
+PDB_ATOM_ROLES = ["idx + 1", "stru[idx].label or stru[idx].element", "' '", "''", "' '", "1", "' '", "stru[idx].xyz_cartn[0]",
+                  "stru[idx].xyz_cartn[1]", "stru[idx].xyz_cartn[2]", "stru[idx].occupancy", "stru[idx].Bisoequiv", "''",
+                  "stru[idx].element", "''"]
+PDB_ANISOU_ROLE = ["tuple(numpy.around(10000.0 * numpy.array([stru[idx].U[0, 0], stru[idx].U[1, 1], stru[idx].U[2, 2], "
+                   "stru[idx].U[0, 1], stru[idx].U[0, 2], stru[idx].U[1, 2]])))"]
+
+
+def assign_src(fn, meth, target, nth=0, count=1):
+    hits = [a for a in meth.assigns if a[1] == [target]]
+    if len(hits) != count:
+        _refuse(fn, meth.func, "%s: expected %d assignment(s) to %s, found %d" % (meth.func.name, count, target, len(hits)))
+    return hits[nth][2]
+
+
+def slice_of(fn, meth, target, pattern, nth=0, count=1):
+    """(lo, hi) captured by `pattern` (two groups) in the value assigned to target."""
+    src = assign_src(fn, meth, target, nth, count)
+    mm = re.fullmatch(pattern, src)
+    if not mm:
+        _refuse(fn, meth.func, "%s: %s = %s does not have the shape %s" % (meth.func.name, target, src, pattern))
+    return int(mm.group(1)), int(mm.group(2))
+
+
+def gen_pdb(o):
+    fn, m = load("p_pdb", "P_pdb", ["toLines", "titleLines", "cryst1Lines", "atomLines", "parseLines"])
+    w, wt, wc, wa, r = m["toLines"], m["titleLines"], m["cryst1Lines"], m["atomLines"], m["parseLines"]
+    f = one_format(fn, wa, "ATOM record", starts("ATOM  "), PDB_ATOM_ROLES)
+    if f["names"] != PDB_ATOM_NAMES:
+        _refuse(fn, f["line"], "ATOM format names are %s" % f["names"])
+    o.spec(fn, "pdb_w_atom", f)
+    o.spec(fn, "pdb_w_anisou", one_format(fn, wa, "ANISOU fields", lambda f: f["args"] == PDB_ANISOU_ROLE))
+    if assign_src(fn, wa, "isotropic") != "not stru.lattice.isanisotropic(a.U)":
+        _refuse(fn, wa.func, "atomLines: the isotropy decision is no longer `not stru.lattice.isanisotropic(a.U)`")
+    lines3 = [a for a in wa.assigns if a[1] == ["line"]]
+    if not lines3 or lines3[0][2] != "'ANISOU' + atomline[6:27] + mid + atomline[72:80]":
+        mm = lines3 and re.fullmatch(r"'ANISOU' \+ atomline\[(\d+):(\d+)\] \+ mid \+ atomline\[(\d+):(\d+)\]", lines3[0][2])
+        if not mm:
+            _refuse(fn, wa.func, "atomLines: ANISOU record is no longer 'ANISOU' + atomline[a:b] + mid + atomline[c:d]")
+        k = [int(x) for x in mm.groups()]
+    else:
+        k = [6, 27, 72, 80]
+    o.lit(fn, "pdb_w_anisou_kw", "ANISOU")
+    o.rng("pdb_w_keep1", k[0], k[1])
+    o.rng("pdb_w_keep2", k[2], k[3])
+    o.spec(fn, "pdb_w_cryst1", one_format(fn, wc, "CRYST1 record", starts("CRYST1"),
+                                          ["(stru.lattice.a, stru.lattice.b, stru.lattice.c, stru.lattice.alpha, stru.lattice.beta, stru.lattice.gamma)"]))
+    if not any(isinstance(n, ast.Compare) and ast.unparse(n) == "latpar != (1.0, 1.0, 1.0, 90.0, 90.0, 90.0)" for n in ast.walk(wc.func)):
+        _refuse(fn, wc.func, "cryst1Lines: the default-cell test changed")
+    pads = [f for f in wc.formats + w.formats + wt.formats if sig(f) == "s" and len(f["items"]) == 1]
+    widths = {f["items"][0][2] for f in pads}
+    if len(pads) != 3 or len(widths) != 1 or not all(f["items"][0][1] for f in pads):
+        _refuse(fn, w.func, "the three '%%-80s' paddings (TITLE, CRYST1, END) are not uniform: %s" % [f["text"] for f in pads])
+    o.nat("pdb_w_pad", widths.pop())
+    tf = one_format(fn, wt, "TITLE padding", lambda f: sig(f) == "s" and len(f["items"]) == 1)
+    mm = re.fullmatch(r"'(TITLE *)' \+ continuation \+ title\[0:stop\]", tf["args"][0])
+    if not mm:
+        _refuse(fn, wt.func, "titleLines: record is no longer 'TITLE   ' + continuation + title[0:stop]")
+    o.lit(fn, "pdb_w_title", mm.group(1))
+    conts = [a[2] for a in wt.assigns if a[1] == ["continuation"]]
+    if len(conts) != 2 or not re.fullmatch(r"'( +)'", conts[0]):
+        _refuse(fn, wt.func, "titleLines: continuation assignments changed: %s" % conts)
+    o.lit(fn, "pdb_w_title_cont", conts[0][1:-1])
+    if "60" not in [a[2] for a in wt.assigns if a[1] == ["stop"]] or not any(
+            isinstance(n, ast.Compare) and ast.unparse(n) == "stop > 60" for n in ast.walk(wt.func)):
+        _refuse(fn, wt.func, "titleLines: the 60-character limit changed")
+    o.nat("pdb_w_title_max", 60)
+    o.spec(fn, "pdb_w_ter", one_format(fn, w, "TER record", starts("TER   "), ["len(stru) + 1", "''", "' '", "1", "' '", "' '"]))
+    ef = one_format(fn, w, "END record", lambda f: f["args"] == ["'END'"])
+    o.lit(fn, "pdb_w_end", "END")
+    calls = [c for _, c in sorted((n.lineno, ast.unparse(n.args[0])) for n in ast.walk(w.func) if isinstance(n, ast.Call)
+                                  and isinstance(n.func, ast.Attribute) and n.func.attr in ("extend", "append") and n.args)]
+    if calls != ["self.titleLines(stru)", "self.cryst1Lines(stru)", "self.atomLines(stru, idx)", "line", "'%-80s' % 'END'"]:
+        _refuse(fn, w.func, "toLines: records are assembled differently: %s" % calls)
+    # reader
+    if not any(isinstance(n, ast.Compare) and ast.unparse(n) == "len(line) < 80" for n in ast.walk(r.func)):
+        _refuse(fn, r.func, "parseLines: lines are no longer padded to 80 characters")
+    o.nat("pdb_r_pad", 80)
+    o.rng("pdb_r_title_cont", *slice_of(fn, r, "continuation", r"line\[(\d+):(\d+)\]"))
+    tl = [s for s in r.subs if s[1] == "line" and s[3] == -1]
+    if len(tl) != 2 or tl[0][2] != tl[1][2]:
+        _refuse(fn, r.func, "parseLines: title text slices changed")
+    o.nat("pdb_r_title_from", tl[0][2])
+    cr = []
+    for nm in ("a", "b", "c", "alpha", "beta", "gamma"):
+        cr += list(slice_of(fn, r, nm, r"float\(line\[(\d+):(\d+)\]\)"))
+    o.natlist("pdb_r_cryst1", cr)
+    o.rng("pdb_r_name", *slice_of(fn, r, "name", r"line\[(\d+):(\d+)\]\.strip\(\)"))
+    src = assign_src(fn, r, "rc")
+    mm = re.fullmatch(r"\[float\(line\[i:i \+ (\d+)\]\) for i in \((\d+), (\d+), (\d+)\)\]", src)
+    if mm:
+        o.natlist("pdb_r_xyz_cols", [int(mm.group(2)), int(mm.group(3)), int(mm.group(4))])
+        o.nat("pdb_r_xyz_width", int(mm.group(1)))
+    else:
+        _refuse(fn, r.func, "parseLines: coordinates are not read from fixed columns: rc = %s" % src)
+    o.rng("pdb_r_occ", *slice_of(fn, r, "occupancy", r"float\(line\[(\d+):(\d+)\]\)", nth=0, count=2))
+    o.rng("pdb_r_B", *slice_of(fn, r, "B", r"float\(line\[(\d+):(\d+)\]\)"))
+    o.rng("pdb_r_element", *slice_of(fn, r, "element", r"line\[(\d+):(\d+)\]\.strip\(\)", nth=0, count=3))
+    o.rng("pdb_r_element_fallback", *slice_of(fn, r, "element", r"line\[(\d+):(\d+)\]\.strip\(\)", nth=1, count=3))
+    o.rng("pdb_r_anisou", *slice_of(fn, r, "Uij", r"\[float\(x\) \* 0\.0001 for x in line\[(\d+):(\d+)\]\.split\(\)\]"))
+    if assign_src(fn, r, "uiso", nth=0, count=2) != "B / (8 * pi ** 2)":
+        _refuse(fn, r.func, "parseLines: uiso is no longer B / (8 * pi**2)")
+    for rec in ("TITLE", "CRYST1", "ANISOU"):
+        has_compare(fn, r, "record", rec)
+
+
+GENERATORS = [gen_xyz, gen_rawxyz, gen_pdffit, gen_discus, gen_pdb]
 
 
 def build():
